@@ -102,9 +102,10 @@ func (g *G) genSelEquiv(id string) *History {
 		{"Accept-Encoding", []string{"gzip, br", "br,gzip", "x-gzip, br", "br , x-gzip", "gzip|br"}, []string{"gzip", "br, deflate"}},
 		{"Accept-Encoding", []string{"gzip", "x-gzip", " gzip ", "gzip,"}, []string{"identity", "gzipx"}},
 		{"Accept-Language", []string{"de, en", "en,de", "en , de", "de|en"}, []string{"de", "en, fr"}},
+		{"Accept-Language", []string{"fr, x-caf\xe9", "x-caf\xe9,fr", "fr , x-caf\xe9"}, []string{"fr, x-caf\xe8", "fr, x-caf\xc3\xa9", "fr"}},
 		{"Te", []string{"trailers, gzip", "gzip,trailers", "x-gzip, trailers"}, []string{"trailers"}},
 		{"Accept-Charset", []string{"utf-8, iso-8859-1", "iso-8859-1,utf-8"}, []string{"utf-8"}},
-	}[g.r.Intn(8)]
+	}[g.r.Intn(9)]
 	url := "http://a.test/sel"
 	hdrOf := func(v string) Hdr {
 		// "a|b" = two field lines
